@@ -33,42 +33,24 @@ def removeBom (s : Str) : Str :=
 
 def isBlankHT (c : Char) : Bool := c = ' ' || c = '\t'
 
-/-- One greedy iteration of `([ \t]*\n)`: `some rest` if the text starts with a blank line. -/
-def dropBlankLine (s : Str) : Option Str :=
-  match s.dropWhile isBlankHT with
-  | '\n' :: r => some r
-  | _ => none
+/-- a line that is `[ \t]*` -/
+def isBlankLine (l : Str) : Bool := l.all isBlankHT
 
-/-- `([ \t]*\n)*`, greedy; returns (start of the last dropped blank line, remaining text). -/
-def dropBlankLines : Nat → Str → Option Str → Option Str × Str
-  | 0, s, last => (last, s)
-  | fuel + 1, s, last =>
-    match dropBlankLine s with
-    | some r => dropBlankLines fuel r (some s)
-    | none => (last, s)
-
-/-- The suffix matches `(\n[ \t]*)*$`. -/
-def isBlankTail (s : Str) : Bool :=
-  match s with
-  | [] => true
-  | c :: _ => c = '\n' && s.all fun d => d = '\n' || isBlankHT d
-
-/-- `[\s\S]+?` followed by `(\n[ \t]*)*$`: the shortest non-empty prefix whose remainder is a
-    blank tail. -/
-def takeContentGo : Str → Str
-  | [] => []
-  | c :: r => if isBlankTail (c :: r) then [] else c :: takeContentGo r
-def takeContent : Str → Str
-  | [] => []
-  | c :: r => c :: takeContentGo r
-
-/-- `tools.strip_empty_lines`: `re.sub(r'^([ \t]*\n)*(?P<content>[\s\S]+?)(\n[ \t]*)*$', '\g<content>')`
-    as a scanner. -/
+/-- `tools.strip_empty_lines`: `re.sub(r'^([ \t]*\n)*(?P<content>[\s\S]+?)(\n[ \t]*)*$', '\g<content>')`,
+    read line by line: the `[ \t]*` lines at both ends are dropped.  When every line is blank the
+    non-greedy `content` must still take one character, and the regex's backtracking leaves: the
+    last line if it is not empty, else the line before it if that is not empty, else one line break. -/
 def stripEmptyLines (s : Str) : Str :=
-  match dropBlankLines (s.length + 1) s none with
-  | (_, c :: r) => takeContent (c :: r)
-  | (some last, []) => takeContent last      -- everything is blank lines: backtrack one iteration
-  | (none, []) => []                          -- empty input: no match, unchanged
+  if s.isEmpty then []
+  else
+    let ls := splitNL s
+    match ls.dropWhile isBlankLine with
+    | [] =>
+      (match ls.reverse with
+       | ln :: lp :: _ => if !ln.isEmpty then ln else if !lp.isEmpty then lp else ['\n']
+       | [ln] => ln
+       | [] => [])
+    | rest => joinNL (rest.reverse.dropWhile isBlankLine).reverse
 
 /-- length of the `^\s*` match. -/
 def leadingSpaces (line : Str) : Nat := (line.takeWhile isSpaceChar).length
